@@ -31,8 +31,8 @@ impl DocString {
             {
                 if f_str.is_empty()
                     && b_str.is_empty()
-                    && front.pos.end.pos == middle.pos.start.pos
-                    && middle.pos.end.pos == back.pos.start.pos
+                    && front.pos.end == middle.pos.start
+                    && middle.pos.end == back.pos.start
                 {
                     self.front = None;
                     self.middle = None;
